@@ -567,7 +567,14 @@ def run(ctx):
         ok = q.always_before_exit(ud, [i for i in ud.returns() if ud.ret_value(i) is not None])
         why = 'a path leaves dispatch without a verdict'
     ctx.check(ok, R8, 'url_dispatcher::dispatch:url-method-application-handed-on', why, ud.where)
-    ctx.floor(R8, 18)
+    # mount points are stored by value (the pool keeps copies): a copy carries every pattern and selector
+    PM = model.Program(build.extract([REPO + '/src/mount_point.cpp'], include_re='^/repo/(src|cppcms)/'))
+    flds, cov = q.copy_coverage(PM, 'cppcms::mount_point', skip=('d',))
+    ctx.require(len(flds) >= 5 and len(cov) >= 2 or ctx.violations, 'C20.R8: mount_point fields / copy operations not found (%d fields, %d copy operations)' % (len(flds), len(cov)))
+    for g_, missing in sorted(cov.items(), key=lambda kv: kv[0].id):
+        ctx.check(not missing, R8, 'mount_point::%s:copies-every-pattern-and-selector' % ('mount_point(mount_point const&)' if g_.kind == 'ctor' else 'operator='),
+                  'the copy does not take %s from the source: the copy stored in the pool matches requests the original would refuse' % [x.rsplit('::', 1)[-1] for x in missing], g_.where)
+    ctx.floor(R8, 20)
     if pending_broken and not ctx.violations:
         raise AnalysisBroken(pending_broken[0])
 
